@@ -24,7 +24,13 @@ CLASSES = [
     ("pyxel/detectors/characteristics.py", "Characteristics"),
     ("pyxel/detectors/environment.py", "Environment"),
     ("pyxel/detectors/apd/apd_characteristics.py", "APDCharacteristics"),
+    # mode-level settings
+    ("pyxel/calibration/calibration.py", "Calibration"),
+    ("pyxel/calibration/algorithm.py", "Algorithm"),
 ]
+# fields whose guard was translated from `x not in range(a, b)`: the translation `not (a <= x <= b-1)` is the
+# code's behaviour on INTEGERS only (a non-integer is never `in range(...)`); filled by extract()
+INT_ONLY: list = []
 
 # The syntax of guards is declared in the generated file itself (it cannot import the model: extract.py writes
 # the header); Model/C12.lean imports it and gives it its meaning.
@@ -57,6 +63,7 @@ deriving DecidableEq, Repr
 
 FALLBACK = TYPES + (
     "def table : List Entry := []\n"
+    "def intOnlyFields : List (String × String) := []\n"
     "def opaqueFields : List String := []\n"
     "def modeKeys : List String := []\ndef detKeys : List String := []\n"
     "def modeOp : String := \"\"\ndef detOp : String := \"\"\n"
@@ -70,8 +77,11 @@ class Unsupported(Exception):
     pass
 
 
+_RANGE_USED: list = []
+
+
 OPS = {ast.Lt: "lt", ast.LtE: "le", ast.Gt: "gt", ast.GtE: "ge", ast.Eq: "eq", ast.NotEq: "ne"}
-IGNORED_NAMES = {"isinstance", "int", "float", "np", "numpy", "min", "max", "len", "Sequence", "WavelengthHandling", "bool"}
+IGNORED_NAMES = {"isinstance", "int", "float", "np", "numpy", "min", "max", "len", "Sequence", "WavelengthHandling", "bool", "range"}
 
 
 def names_in(node):
@@ -100,6 +110,9 @@ def is_number_types(node):
     for n in ast.walk(node):
         if isinstance(n, ast.Name):
             names.add(n.id)
+    if names == {"int"}:
+        _RANGE_USED.append("isinstance-int")      # `isinstance(x, int)`: true of the integers the field is made for
+        return True
     return names == {"int", "float"}
 
 
@@ -127,6 +140,19 @@ def cond(node, var):
                     and node.comparators[0].value is None:
                 return ("notNone",) if isinstance(node.ops[0], ast.IsNot) else ("not", ("notNone",))
             raise Unsupported("is / is not")
+        if len(node.ops) == 1 and isinstance(node.ops[0], (ast.In, ast.NotIn)):
+            # `x in range(a, b)` / `x not in range(b)` with integer constants
+            c = node.comparators[0]
+            if isinstance(node.left, ast.Name) and node.left.id == var and isinstance(c, ast.Call) \
+                    and getattr(c.func, "id", None) == "range" and 1 <= len(c.args) <= 2 and not c.keywords:
+                bounds = [term(a, var) for a in c.args]
+                if all(b[0] == "const" and b[1].denominator == 1 for b in bounds):
+                    lo = bounds[0][1] if len(bounds) == 2 else Fraction(0)
+                    hi = bounds[-1][1] - 1
+                    _RANGE_USED.append(var)
+                    inside = ("chain", ("const", lo), "le", ("x",), "le", ("const", hi))
+                    return inside if isinstance(node.ops[0], ast.In) else ("not", inside)
+            raise Unsupported("in / not in")
         ops = []
         for o in node.ops:
             if type(o) not in OPS:
@@ -208,10 +234,12 @@ def extract():
         params = [a.arg for a in init.args.args[1:]] + [a.arg for a in init.args.kwonlyargs] if init else []
         setters = setters_of(cls)
         for f in params:
+            del _RANGE_USED[:]
             cc, op1 = guard_cond(init, f)
             sc, op2 = (None, False)
             if f in setters:
                 sc, op2 = guard_cond(setters[f][0], setters[f][1])
+            int_only = bool(_RANGE_USED)
             if op1 or op2:
                 opaque.append(f"{cname}.{f}")
                 continue
@@ -220,7 +248,7 @@ def extract():
             if f not in setters:
                 opaque.append(f"{cname}.{f}:no-setter")
                 continue
-            table.append({"cls": cname, "field": f, "ctor": cc or ("ff",), "setter": sc or ("ff",)})
+            table.append({"cls": cname, "field": f, "ctor": cc or ("ff",), "setter": sc or ("ff",), "int_only": int_only})
     return table, sorted(opaque)
 
 
@@ -354,6 +382,8 @@ def gen() -> str:
     return (
         TYPES +
         f"def table : List Entry := [\n  {rows}]\n"
+        "def intOnlyFields : List (String × String) := ["
+        + ", ".join(f"({lstr(e['cls'])}, {lstr(e['field'])})" for e in table if e.get("int_only")) + "]\n"
         f"def opaqueFields : List String := {llist(opaque)}\n"
         f"def modeKeys : List String := {llist(facts['modeKeys'])}\n"
         f"def detKeys : List String := {llist(facts['detKeys'])}\n"
